@@ -1,5 +1,6 @@
 """C08 -- leaks discharge Cd*A*sqrt(2 g p) only while active and only at positive pressure."""
 import ast
+import itertools
 import re
 
 import sympy as sp
@@ -14,6 +15,8 @@ CON, PAR = B.CONSTRAINT, B.PARAM
 VAR = "wntr/sim/models/var.py"
 ELEM = "wntr/network/elements.py"
 CTRL = "wntr/network/controls.py"
+HYD = "wntr/sim/hydraulics.py"
+BASE = "wntr/network/base.py"
 
 EXPLANATION = (
     "Formula extraction of leak_constraint (three-branch residual: s*p below zero pressure, smoothing cubic on [0, delta], Cd*A*sqrt(2*9.81*p) "
@@ -110,6 +113,163 @@ def junction_guarded(n, fn):
                 return "other"
         q = p
     return None
+
+
+def prop_models(conds, limit=14):
+    """propositional reading of path conditions {test text: truth value}: `not`, `and`, `or` and comparisons with a boolean literal
+    (`A == False`, `A is True`, ...) are interpreted, every other test is an uninterpreted atom (its text).  -> all truth assignments of the
+    atoms under which every condition has its recorded value ([] = the path is infeasible)."""
+    leaves = []
+
+    def build(node):
+        if isinstance(node, ast.UnaryOp) and isinstance(node.op, ast.Not):
+            f = build(node.operand)
+            return lambda a: not f(a)
+        if isinstance(node, ast.BoolOp):
+            fs = [build(v) for v in node.values]
+            if isinstance(node.op, ast.And):
+                return lambda a: all(f(a) for f in fs)
+            return lambda a: any(f(a) for f in fs)
+        if isinstance(node, ast.Compare) and len(node.ops) == 1 and isinstance(node.ops[0], (ast.Eq, ast.Is, ast.NotEq, ast.IsNot)):
+            x, y = node.left, node.comparators[0]
+            if isinstance(x, ast.Constant) and isinstance(x.value, bool):
+                x, y = y, x
+            if isinstance(y, ast.Constant) and isinstance(y.value, bool):
+                f = build(x)
+                pos = isinstance(node.ops[0], (ast.Eq, ast.Is)) == y.value
+                return (lambda a: f(a)) if pos else (lambda a: not f(a))
+        if isinstance(node, ast.Constant) and isinstance(node.value, bool):
+            return lambda a, v=node.value: v
+        txt = node if isinstance(node, str) else unparse(node)
+        if txt not in leaves:
+            leaves.append(txt)
+        return lambda a: a[txt]
+    fs = []
+    for k, v in conds.items():
+        try:
+            node = ast.parse(k, mode="eval").body
+        except SyntaxError:
+            node = k
+        fs.append((build(node), bool(v)))
+    if len(leaves) > limit:
+        raise ExtractError("too many independent tests on one path (%d)" % len(leaves))
+    out = []
+    for bits in itertools.product((True, False), repeat=len(leaves)):
+        a = dict(zip(leaves, bits))
+        if all(bool(f(a)) == v for f, v in fs):
+            out.append(a)
+    return out
+
+
+def prop_forced(atom, models):
+    """truth value the atom has in every model: True / False / None (free, or not tested at all)"""
+    vals = {m[atom] for m in models if atom in m}
+    return vals.pop() if len(vals) == 1 else None
+
+
+def value_cases(v, conds):
+    """case analysis of a value computed by SymExec: an undecided conditional expression `a if T else b` is a Piecewise over the boolean
+    atom '[T]'.  Every truth assignment of the atoms occurring in the value that the path conditions do not contradict is one case --
+    exactly the paths the equivalent if/else statement would have produced.  -> [(conds extended by the atoms, leaf value)]"""
+    if isinstance(v, Opaque):
+        return [(conds, v.text)]
+    if not isinstance(v, sp.Basic):
+        return [(conds, v)]
+    atoms = sorted((a for a in v.free_symbols if a.name.startswith("[") and a.name.endswith("]")), key=lambda a: a.name)
+    if len(atoms) > 6:
+        raise ExtractError("value depends on %d conditional-expression tests" % len(atoms))
+    out = []
+    for bits in itertools.product((True, False), repeat=len(atoms)):
+        c2 = dict(conds)
+        feasible = True
+        for a, b in zip(atoms, bits):
+            txt = a.name[1:-1]
+            if c2.get(txt, b) != b:
+                feasible = False
+                break
+            c2[txt] = b
+        if not feasible:
+            continue
+        leaf = v.subs({a: (1 if b else 0) for a, b in zip(atoms, bits)})
+        if isinstance(leaf, sp.Symbol):
+            leaf = leaf.name
+        elif leaf.is_Integer or leaf == 0:
+            leaf = int(leaf)
+        else:
+            leaf = str(leaf)
+        out.append((c2, leaf))
+    return out
+
+
+def leak_demand_cases(repo):
+    """path- and case-sensitive summary of what store_results_in_network finally stores to <node>._leak_demand inside the junction and
+    tank loops.  -> (fn, [(kind, key variable, node variable, conds, value or '<not stored>')]).  The loop variables are read from the loop
+    header; branch tests and conditional expressions both become cases (conds: test text -> bool)."""
+    fn = repo.func(HYD, "store_results_in_network")
+    ex = SymExec()
+    rows = []
+    for o in ex.run(fn):
+        if o.raised:
+            continue
+        conds = dict(o.conds)
+        heads = {}
+        for e in o.events:
+            if e[0] == "loop" and e[2] in ("wn.junctions()", "wn.tanks()"):
+                try:
+                    tg = ast.parse(e[1], mode="eval").body
+                except SyntaxError:
+                    tg = None
+                if not (isinstance(tg, ast.Tuple) and len(tg.elts) == 2 and all(isinstance(x, ast.Name) for x in tg.elts)):
+                    raise ExtractError("store_results_in_network: loop over %s does not unpack (name, node)" % e[2])
+                hv = (tg.elts[0].id, tg.elts[1].id)
+                if heads.get(e[2], hv) != hv:
+                    raise ExtractError("store_results_in_network: loops over %s with different variables" % e[2])
+                heads[e[2]] = hv
+        for ctx, (kv, nv) in heads.items():
+            last = "<not stored>"
+            for e in o.events:
+                if e[0] == "store" and len(e) > 4 and e[4] and e[4][-1] == ctx and e[1] == nv + "._leak_demand":
+                    last = e[2]
+            for c2, leaf in value_cases(last, conds):
+                rows.append(("junction" if ctx == "wn.junctions()" else "tank", kv, nv, c2, leaf))
+    return fn, rows
+
+
+def class_literals(repo, rel, cname):
+    """class-level `NAME = <expr>` bindings (bound exactly once) of a class: name -> expression AST"""
+    out, cnt = {}, {}
+    for n in repo.cls(rel, cname).body:
+        if isinstance(n, ast.Assign) and len(n.targets) == 1 and isinstance(n.targets[0], ast.Name):
+            out[n.targets[0].id] = n.value
+            cnt[n.targets[0].id] = cnt.get(n.targets[0].id, 0) + 1
+    return {k: v for k, v in out.items() if cnt[k] == 1}
+
+
+def private_attribute_of(repo, attribute):
+    """the values ControlAction.__init__ finally stores to self._private_attribute when it is constructed with the given attribute name, over
+    all paths that do not raise: symbolic execution with the parameter bound to the literal, so an if/elif chain, early exits, a conditional
+    expression or a (class-level or local) lookup table all evaluate to the same answer.  -> (fn, set of values)"""
+    cai = repo.func(CTRL, "ControlAction.__init__")
+    lits = class_literals(repo, CTRL, "ControlAction")
+    holder = []
+
+    def attr_hook(base, attr, st):
+        if isinstance(base, Opaque) and base.text in ("self", "ControlAction", "type(self)", "self.__class__") and attr in lits:
+            return holder[0].ev(lits[attr], State())
+        return NotImplemented
+    ex = SymExec(attr_hook=attr_hook)
+    holder.append(ex)
+    vals = set()
+    for o in ex.run(cai, env={"attribute": attribute}):
+        if o.raised:
+            continue
+        st = [e for e in o.events if e[0] == "store" and e[1] == "self._private_attribute"]
+        if not st:
+            vals.add("<not stored>")
+            continue
+        for c2, leaf in value_cases(st[-1][2], dict(o.conds)):
+            vals.add(leaf)
+    return cai, vals
 
 
 def run(repo, chk):
@@ -271,44 +431,48 @@ def run(repo, chk):
     table_, default_, ci, init_ok = control_type_table(repo)
     tkey = [k for k in table_ if "SimTimeCondition" in k]
     chk.expect(init_ok and bool(tkey) and table_[tkey[0]] == "_ControlType.presolve", "R-C08-4", "time-conditioned controls are pre-solve (back-tracked to their instant)", loc(ci), found=table_)
-    cai = repo.func(CTRL, "ControlAction.__init__")
-    m = re.search(r"attribute == 'leak_status':\s*self\._private_attribute = '(\w+)'", unparse(cai))
-    chk.expect(bool(m) and m.group(1) == "_leak_status", "R-C08-4", "ControlAction maps leak_status to the run-time field _leak_status", loc(cai), found=m.group(1) if m else None)
-    ls = repo.func("wntr/network/base.py", "Node.leak_status", kind="getter")
-    chk.expect("self._leak_status" in unparse(ls), "R-C08-4", "Node.leak_status reads _leak_status", loc(ls))
+    cai, pvals = private_attribute_of(repo, "leak_status")
+    chk.fn(cai)
+    chk.expect(pvals == {"_leak_status"}, "R-C08-4", "ControlAction maps leak_status to the run-time field _leak_status", loc(cai), found=sorted(map(str, pvals)))
+    ls = repo.func(BASE, "Node.leak_status", kind="getter")
+    rets = {(o.ret.text if isinstance(o.ret, Opaque) else o.ret) for o in SymExec().run(ls) if not o.raised}
+    chk.expect(rets == {"self._leak_status"}, "R-C08-4", "Node.leak_status reads _leak_status", loc(ls), found=sorted(map(str, rets)))
     chk.floor("R-C08-4", 2 * 7 + 4)
     chk.floor("R-C08-5", 6)
 
     # ---------------------------------------------------------------- R-C08-6 reported leak demand
     # the leak row exists only for `leak_status and not _is_isolated` (R-C08-1); wherever it does not exist the reported leak demand must be
     # the constant 0 -- on EVERY path through store_results_in_network (last store wins), not the stale value of the leak-rate variable
-    from ._shared import final_stores, forced
-    sfn, rows = final_stores(repo)
+    sfn, rows = leak_demand_cases(repo)
     chk.fn(sfn)
-    n6 = 0
     seen6 = set()
-    for ctx, conds, finals in rows:
-        if ctx not in ("wn.junctions()", "wn.tanks()"):
-            continue
-        kind = "junction" if ctx == "wn.junctions()" else "tank"
-        iso = forced("node._is_isolated", conds) if kind == "junction" else False
-        ls = forced("node.leak_status", conds)
-        got = finals.get("node._leak_demand", "<not stored>")
+    for kind, kv, nv, conds, got in rows:
+        models = prop_models(conds)
+        if not models:
+            continue                              # contradictory tests: no execution takes this path
+        iso = prop_forced(nv + "._is_isolated", models) if kind == "junction" else False
+        ls = prop_forced(nv + ".leak_status", models)
+        if ls is None:
+            ls = prop_forced(nv + "._leak_status", models)      # the field the read-only property returns (R-C08-4)
         if iso is not False:
             case, want = "isolated", 0           # a path an isolated junction may take
         elif ls is True:
-            case, want = "connected, leak active", "m.leak_rate[name].value"
+            case, want = "connected, leak active", "m.leak_rate[%s].value" % kv
         elif ls is False:
             case, want = "connected, leak inactive", 0
-        else:
+        elif not any("leak_status" in k for k in conds) and "leak_status" not in str(got):
+            # nothing on this path looks at the switch: one value for the active and the inactive leak
+            chk.bad("R-C08-6", "reported leak demand of a connected %s depends on leak_status" % kind, loc(sfn),
+                    "store_results_in_network, path %s stores %s whether or not the leak is active" % (sorted(conds.items()), got), expected="m.leak_rate[%s].value while active, 0 otherwise" % kv, found=got)
             continue
+        else:
+            raise ExtractError("store_results_in_network: cannot tell whether the leak is active on path %s" % sorted(conds.items()))
         key = (kind, case, str(got))
         if key in seen6:
             continue
         seen6.add(key)
-        n6 += 1
         chk.expect(got == want, "R-C08-6", "reported leak demand of a %s [%s] is %s on every path" % (kind, case, want), loc(sfn),
-                   "store_results_in_network, path %s: the last value stored to node._leak_demand" % sorted(conds.items()), expected=want, found=got)
+                   "store_results_in_network, path %s: the last value stored to %s._leak_demand" % (sorted(conds.items()), nv), expected=want, found=got)
     chk.floor("R-C08-6", 5)
 
     # ---------------------------------------------------------------- R-C08-7 the leak window starts over with every reset
@@ -337,4 +501,43 @@ WITNESSES = [
          new="            start_control_action = ControlAction(self, 'leak_status', True)\n            control = Control._time_control(wn, end_time, 'SIM_TIME', False, start_control_action)\n            wn.add_control(self._leak_start_control_name, control)\n\n        if end_time is not None:\n            end_control_action = ControlAction(self, 'leak_status', False)\n            control = Control._time_control(wn, end_time, 'SIM_TIME', False, end_control_action)\n            wn.add_control(self._leak_end_control_name, control)\n\n    def remove_leak(self,wn):\n        \"\"\"\n        Remove a leak control", rule="R-C08-4"),
     dict(name="leak-updater-missing", file=CON, old="            updater.add(node, 'leak_status', leak_constraint.update)\n", new="", rule="R-C08-3"),
     dict(name="elevation-for-all-nodes-preserving", file=PAR, old="                m.leak_area[node_name] = aml.Param(node.leak_area)", new="                area_ = node.leak_area\n                m.leak_area[node_name] = aml.Param(area_)", silent=True),
+    # ---- shapes R-C08-6 / R-C08-4 must see through (behaviour-preserving) and their wrong twins (must fire)
+    dict(name="leak-demand-conditional-expression-preserving", file=HYD,
+         old="            if node.leak_status:\n                node._leak_demand = m.leak_rate[name].value\n            else:\n                node._leak_demand = 0\n\n    for name, node in wn.tanks():\n        if node.leak_status:\n            node._leak_demand = m.leak_rate[name].value\n        else:\n            node._leak_demand = 0\n",
+         new="            node._leak_demand = m.leak_rate[name].value if node.leak_status else 0\n\n    for name, node in wn.tanks():\n        leak_rate = m.leak_rate[name].value if node.leak_status else 0\n        node._leak_demand = leak_rate\n", silent=True),
+    dict(name="leak-demand-conditional-expression-swapped", file=HYD,
+         old="            if node.leak_status:\n                node._leak_demand = m.leak_rate[name].value\n            else:\n                node._leak_demand = 0\n\n    for name, node in wn.tanks():\n",
+         new="            node._leak_demand = 0 if node.leak_status else m.leak_rate[name].value\n\n    for name, node in wn.tanks():\n", rule="R-C08-6"),
+    dict(name="leak-demand-one-expression-over-isolation-preserving", file=HYD,
+         old="            node._pressure = 0\n            node._leak_demand = 0\n",
+         new="            node._pressure = 0\n",
+         also=[("            if node.leak_status:\n                node._leak_demand = m.leak_rate[name].value\n            else:\n                node._leak_demand = 0\n\n    for name, node in wn.tanks():\n",
+                "        node._leak_demand = 0 if (node._is_isolated or node.leak_status == False) else m.leak_rate[name].value\n\n    for name, node in wn.tanks():\n")], silent=True),
+    dict(name="leak-demand-one-expression-ignores-isolation", file=HYD,
+         old="            node._pressure = 0\n            node._leak_demand = 0\n",
+         new="            node._pressure = 0\n",
+         also=[("            if node.leak_status:\n                node._leak_demand = m.leak_rate[name].value\n            else:\n                node._leak_demand = 0\n\n    for name, node in wn.tanks():\n",
+                "        node._leak_demand = 0 if node.leak_status == False else m.leak_rate[name].value\n\n    for name, node in wn.tanks():\n")], rule="R-C08-6"),
+    dict(name="tank-loop-renamed-variables-early-continue-preserving", file=HYD,
+         old="    for name, node in wn.tanks():\n        if node.leak_status:\n            node._leak_demand = m.leak_rate[name].value\n        else:\n            node._leak_demand = 0\n        node._demand = (sum(wn.get_link(link_name).flow for link_name in wn.get_links_for_node(name, 'INLET')) -\n                       sum(wn.get_link(link_name).flow for link_name in wn.get_links_for_node(name, 'OUTLET')) -\n                       node._leak_demand)\n",
+         new="    for tank_name, tank in wn.tanks():\n        tank._leak_demand = 0\n        if not tank.leak_status == False:\n            tank._leak_demand = m.leak_rate[tank_name].value\n        tank._demand = (sum(wn.get_link(link_name).flow for link_name in wn.get_links_for_node(tank_name, 'INLET')) -\n                       sum(wn.get_link(link_name).flow for link_name in wn.get_links_for_node(tank_name, 'OUTLET')) -\n                       tank._leak_demand)\n", silent=True),
+    dict(name="tank-loop-renamed-variables-wrong-key", file=HYD,
+         old="    for name, node in wn.tanks():\n        if node.leak_status:\n            node._leak_demand = m.leak_rate[name].value\n",
+         new="    for tank_name, node in wn.tanks():\n        if node.leak_status:\n            node._leak_demand = m.leak_rate[name].value\n", rule="R-C08-6"),
+    dict(name="private-attribute-lookup-table-preserving", file=CTRL,
+         old="        self._private_attribute = attribute\n        if attribute == 'status':\n            self._private_attribute = '_user_status'\n        elif attribute == 'leak_status':\n            self._private_attribute = '_leak_status'\n        elif attribute == 'setting':\n            self._private_attribute = '_setting'\n",
+         new="        self._private_attribute = self._PRIVATE_TWINS.get(attribute, attribute)\n",
+         also=[("    def __init__(self, target_obj, attribute, value):\n        super(ControlAction, self).__init__()\n",
+                "    _PRIVATE_TWINS = {'status': '_user_status', 'leak_status': '_leak_status', 'setting': '_setting'}\n\n    def __init__(self, target_obj, attribute, value):\n        super(ControlAction, self).__init__()\n")], silent=True),
+    dict(name="private-attribute-lookup-table-wrong-twin", file=CTRL,
+         old="        self._private_attribute = attribute\n        if attribute == 'status':\n            self._private_attribute = '_user_status'\n        elif attribute == 'leak_status':\n            self._private_attribute = '_leak_status'\n        elif attribute == 'setting':\n            self._private_attribute = '_setting'\n",
+         new="        self._private_attribute = self._PRIVATE_TWINS.get(attribute, attribute)\n",
+         also=[("    def __init__(self, target_obj, attribute, value):\n        super(ControlAction, self).__init__()\n",
+                "    _PRIVATE_TWINS = {'status': '_user_status', 'leak_status': '_leak', 'setting': '_setting'}\n\n    def __init__(self, target_obj, attribute, value):\n        super(ControlAction, self).__init__()\n")], rule="R-C08-4"),
+    dict(name="private-attribute-early-return-chain-preserving", file=CTRL,
+         old="        self._private_attribute = attribute\n        if attribute == 'status':\n            self._private_attribute = '_user_status'\n        elif attribute == 'leak_status':\n            self._private_attribute = '_leak_status'\n        elif attribute == 'setting':\n            self._private_attribute = '_setting'\n",
+         new="        if attribute == 'status':\n            self._private_attribute = '_user_status'\n            return\n        if attribute == 'setting':\n            self._private_attribute = '_setting'\n            return\n        self._private_attribute = '_leak_status' if attribute == 'leak_status' else attribute\n", silent=True),
+    dict(name="private-attribute-leak-status-unmapped", file=CTRL,
+         old="        elif attribute == 'leak_status':\n            self._private_attribute = '_leak_status'\n", new="", rule="R-C08-4"),
+    dict(name="leak-status-getter-reads-static-flag", file=BASE, old="        return self._leak_status\n", new="        return self._leak\n", rule="R-C08-4"),
 ]
